@@ -108,6 +108,14 @@ func inputForm(id string) (arg, host, scheme string) {
 	switch id {
 	case "host":
 		return host, host, "https"
+	case "hostdot": // fully qualified spellings of the same name
+		return host + ".", host, "https"
+	case "hostdotport":
+		return host + ".:8443", host, "https"
+	case "httpsdot":
+		return "https://" + host + "./index.html", host, "https"
+	case "foodotport":
+		return "foo://" + host + ".:123", host, "foo"
 	case "host443":
 		return host + ":443", host, "https"
 	case "host80":
